@@ -579,8 +579,8 @@ theorem loadEntries_status (fs : FSI) (rec : Path → LoadRes) (cp : Path) (P : 
 /-- **C11_terminates.**  Let `readable` list every path the file system can read.  With fuel above its length, a load never
 runs out of fuel and never panics (provided `read`/`glob` themselves do not): it ends in `ok` or in a `LoadError`.
 The include stack holds distinct readable files, so the recursion depth is at most `readable.length`. -/
-theorem C11_terminates (fs : FSI) (readable : List Path)
-    (hread : ∀ q c, fs.read q = .ok c → q ∈ readable)
+theorem C11_terminates_canon (fs : FSI) (readable : List Path)
+    (hread : ∀ q c, fs.read (fs.canon q) = .ok c → fs.canon q ∈ readable)
     (hreadc : ∀ q, (fs.read q).crashes = false) (hglobc : ∀ s, (fs.glob s).crashes = false) :
     ∀ n stack p, stack.Nodup → (∀ q ∈ stack, q ∈ readable) → readable.length < n + stack.length →
       (loadFile fs n stack p).status.crashes = false := by
@@ -617,6 +617,13 @@ theorem C11_terminates (fs : FSI) (readable : List Path)
       | err e => simp [LoadRes.fail, Outcome.crashes]
       | panic s => simp [hr, Outcome.crashes] at hrc
       | fuelOut => simp [hr, Outcome.crashes] at hrc
+
+theorem C11_terminates (fs : FSI) (readable : List Path)
+    (hread : ∀ q c, fs.read q = .ok c → q ∈ readable)
+    (hreadc : ∀ q, (fs.read q).crashes = false) (hglobc : ∀ s, (fs.glob s).crashes = false) :
+    ∀ n stack p, stack.Nodup → (∀ q ∈ stack, q ∈ readable) → readable.length < n + stack.length →
+      (loadFile fs n stack p).status.crashes = false :=
+  C11_terminates_canon fs readable (fun _ c h => hread _ c h) hreadc hglobc
 
 theorem C11_terminates_load (fs : FSI) (readable : List Path)
     (hread : ∀ q c, fs.read q = .ok c → q ∈ readable)
@@ -775,6 +782,71 @@ theorem C11_fake_terminates (o : GlobOpts) (t : Tree) (fuel : Nat) (hfuel : t.fi
     · rfl
     · rfl
     · simp only [Tree.extGlob]; split <;> rfl
+
+/-! ## the real file system (`ProdFileSystem` on a directory tree without symbolic links) -/
+
+/-- **C11 on the real file system**: load = expand, for every tree, glob options and fuel. -/
+theorem C11_prod_load_eq_expand (o : GlobOpts) (t : Tree) (fuel : Nat) (root : Path) (xs : Tagged) :
+    load (prodFS o t) fuel root = ⟨xs, .ok ()⟩ ↔ expand (prodFS o t) fuel root = some xs :=
+  C11_load_eq_expand (prodFS o t) (fun p => prodCanon_idem t p) fuel root xs
+
+/-- **C11_split across the two file systems**: a ledger in one file on the in-memory file system and the same ledger cut
+into a tree on disk (or vice versa, or both on the same kind) deliver the same entries and give the same `process`. -/
+theorem C11_split_fake_prod (o o' : GlobOpts) (t t' : Tree) (r r' : Path) (n n' : Nat) (xs xs' : Tagged)
+    (h : expand (fakeFS o t) n r = some xs) (h' : expand (prodFS o' t') n' r' = some xs') (heq : untag xs = untag xs')
+    (m m' : Nat) (hm : n ≤ m) (hm' : n' ≤ m') :
+    (load (fakeFS o t) m r).status = .ok () ∧ (load (prodFS o' t') m' r').status = .ok () ∧
+    untag (load (fakeFS o t) m r).delivered = untag (load (prodFS o' t') m' r').delivered ∧
+    process (untag (load (fakeFS o t) m r).delivered) = process (untag (load (prodFS o' t') m' r').delivered) :=
+  C11_split (fakeFS o t) (prodFS o' t') (fun p => canonFake_idem p) (fun p => prodCanon_idem t' p) r r' n n' xs xs'
+    h h' heq m m' hm hm'
+
+theorem extGlob_crashes (t : Tree) (pat : String) : (t.extGlob pat).crashes = false := by
+  simp only [Tree.extGlob]
+  split <;> rfl
+
+/-- **C11 termination on the real file system** (no symbolic links): with more fuel than files, every load ends in
+`ok` or `err`. -/
+theorem C11_prod_terminates (o : GlobOpts) (t : Tree) (fuel : Nat) (hfuel : t.files.length < fuel) (root : Path) :
+    (load (prodFS o t) fuel root).status.crashes = false := by
+  refine C11_terminates_canon (prodFS o t) (t.files.map fun kv => parsePath kv.1) ?_ ?_ ?_ fuel [] root
+    List.nodup_nil (by simp) (by simpa using hfuel)
+  · intro q c h
+    simp only [prodFS] at h ⊢
+    unfold prodRead at h
+    cases hr : resolveReal t (prodCanon t q) with
+    | none => simp [hr] at h
+    | some q' =>
+      simp only [hr] at h
+      -- the canonical path resolves to itself
+      have hq' : q' = prodCanon t q := by
+        unfold prodCanon at hr ⊢
+        cases h0 : resolveReal t q with
+        | none => simp [h0] at hr ⊢
+        | some q0 =>
+          simp only [h0, Option.getD_some] at hr ⊢
+          rw [resolveReal_fixed t q q0 h0] at hr
+          cases hr; rfl
+      by_cases hf : t.isFile q' = true
+      · simp only [Tree.isFile, List.any_eq_true, decide_eq_true_eq] at hf
+        obtain ⟨kv, hm, hk⟩ := hf
+        exact List.mem_map.2 ⟨kv, hm, hk.trans hq'⟩
+      · simp [hf] at h
+  · intro q
+    simp only [prodFS, prodRead]
+    split
+    · rfl
+    · split
+      · exact readRaw_crashes _
+      · rfl
+  · intro s
+    simp only [prodFS, prodGlob]
+    split
+    · rfl
+    · exact extGlob_crashes t s
+    · split
+      · split <;> rfl
+      · exact extGlob_crashes t s
 
 /-! ## non-vacuity: the hypotheses are met by concrete trees, and the negative cases really fail -/
 
